@@ -25,15 +25,19 @@ RULE = ("four Hypothesis generators, reported separately: (a) arbitrary text; (b
         "cardinalities, duplicate sibling names, comments, processing instructions, CDATA, entities, "
         "namespaces, other versions, XML declarations); (c) structural mutations of valid files written by "
         "the library; (d) odML-shaped dictionaries with wrong keys / scalar types / dates / ids / "
-        "cardinalities / duplicate names / versions for DictReader and the JSON/YAML string and file entry "
+        "cardinalities / duplicate names / versions / child lists that are empty, scalar or hold non-mapping "
+        "entries for DictReader and the JSON/YAML string and file entry "
         "points; x strict/lenient x string/file. The thorough tier adds a coverage-guided atheris (libFuzzer) "
-        "campaign on the XML reader with the same oracle. Oracle: outcome is a Document or ParserException "
+        "campaign on the XML reader (raw bytes with empty and seeded corpus, and bytes driving generator (b)) "
+        "and on the dictionary reader (bytes -> JSON -> odML-shaped dictionaries, seeded corpus) with the same "
+        "oracle. Oracle: outcome is a Document or ParserException "
         "(InvalidVersionException for another version); lenient mode never raises on well-formed XML with an "
         "odML root of the current version and keeps every valid top-level Section; returned documents satisfy "
         "the C03/C04 invariants; a 30 s watchdog turns a hang into a failure. Non-trivial = input accepted by "
         "the syntax layer that contains >= 1 injected fault")
-ASSUMPTIONS = ["'shaped like an odML dictionary' = mapping root, Document a mapping, sections / properties lists "
-               "of mappings; anything may be wrong inside that shape",
+ASSUMPTIONS = ["'shaped like an odML dictionary' = mapping root with a 'Document' entry; anything may be wrong below "
+               "it (a 'Document' that is no mapping must be refused with ParserException in both modes); leaf "
+               "content is a scalar, a list of scalars or a flat mapping",
                "the watchdog (30 s for inputs of a few KB) is the only wall-clock signal used"]
 
 TIMEOUT = 30
@@ -688,7 +692,7 @@ def plan(tier):
             [{"name": "mutation%d" % i, "type": "c", "n": 5000} for i in range(3)] +
             [{"name": "dict%d" % i, "type": "d", "n": 8000} for i in range(4)] +
             [{"name": "special", "type": "special"}] +
-            [{"name": "atheris", "type": "atheris", "runs": 400000}])
+            [{"name": "atheris%d" % i, "type": "atheris", "runs": 800000, "part": i} for i in range(4)])
 
 
 def run(shard, seed, ctx):
@@ -706,7 +710,7 @@ def run(shard, seed, ctx):
         run_special(ctx)
     else:
         from ..fuzz import xml_atheris
-        xml_atheris.campaign(ctx, shard["runs"], seed)
+        xml_atheris.campaign(ctx, shard["runs"], seed, shard.get("part"))
 
 
 def replay(kind, case):
